@@ -389,7 +389,7 @@ def _run_seq(cfg) -> Dict[str, Any]:
             if isinstance(val, core.HarnessError):
                 raise val
             viol.append({"sig": {"class": "did-not-finish", "status": status},
-                         "msg": f"sequence {names} ended with {status}: {val!r}"})
+                         "msg": f"sequence {names} ended with {status}: {core.clean_repr(val)}"})
             outcomes.add(status)
             continue
         for step, e in enumerate(log):
@@ -461,7 +461,7 @@ def _run_handshake(cfg) -> Dict[str, Any]:
         cnt["sequences"] += 1
         where = f"handshake preferred={preferred} server-answered={answer} then {op_name(op)}"
         if status != "ok":
-            raise core.HarnessError(f"handshake harness did not finish: {status} {val!r} ({where})")
+            raise core.HarnessError(f"handshake harness did not finish: {status} {core.clean_repr(val)} ({where})")
         if log.get("offered") != preferred or log["negotiated"] != answer:
             raise core.HarnessError(f"handshake script out of step: offered={log.get('offered')} negotiated={log['negotiated']} ({where})")
         cnt["steps"] += 1
@@ -501,7 +501,7 @@ def _run_forms(cfg) -> Dict[str, Any]:
         cnt["steps"] += 1
         where = f"version={version!r} line={json.dumps(line)}"
         if status != "ok":
-            viol.append({"sig": {"class": "did-not-finish", "status": status}, "msg": f"{status}: {val!r}; {where}"})
+            viol.append({"sig": {"class": "did-not-finish", "status": status}, "msg": f"{status}: {core.clean_repr(val)}; {where}"})
             continue
         judge_line(line, version, log["got"], where, viol, cnt, invalid_name=name)
         if errors:
@@ -623,7 +623,7 @@ def _run_congested(cfg) -> Dict[str, Any]:
                      "msg": f"{msg}; {where}"})
 
     if status != "ok":
-        bad("did-not-finish", f"{status}: {val!r}", status=status)
+        bad("did-not-finish", f"{status}: {core.clean_repr(val)}", status=status)
         return {"outcome": "congested:" + status, "violations": viol, "counters": {"sequences": 1}}
     if info.get("spawned") != 1:
         raise core.HarnessError("seam missing: StdioClient did not call anyio.open_process")
@@ -738,7 +738,7 @@ def _run_reentry(cfg) -> Dict[str, Any]:
             cnt["reentered-bare-client/did-not-finish(recorded)"] = 1
             return {"outcome": "reentry:client-" + status, "violations": [], "counters": cnt}
         viol.append({"sig": {"class": "did-not-finish", "scenario": "re-entered-transport", "status": status},
-                     "msg": f"{status}: {val!r}; {where0}"})
+                     "msg": f"{status}: {core.clean_repr(val)}; {where0}"})
         return {"outcome": "reentry:" + status, "violations": viol, "counters": cnt}
     if len(procs) != len(conns):
         raise core.HarnessError(f"{len(procs)} processes spawned for {len(conns)} connections")
